@@ -124,7 +124,7 @@ fn llvm_half(rep: &mut Report, rng: &mut Rng) {
         let nb = rng.range(1, 5) as usize;
         let mut bins: Vec<(String, bool, Vec<u8>)> = vec![]; // name, fails, lcov
         std::fs::create_dir_all(dir.join("bins/nested/deeper")).unwrap();
-        let cfg = GenCfg { allow_zero_taken: true, allow_first_branch_nonzero: true, allow_overflow_sum: true, allow_non_ascii: false, allow_fnda_before_fn: false };
+        let cfg = GenCfg { allow_zero_taken: true, allow_first_branch_nonzero: true, allow_overflow_sum: true, allow_non_ascii: false };
         for b in 0..nb {
             let name = format!("bin{}", b);
             let sub = *rng.pick(&["", "nested/", "nested/deeper/"]);
